@@ -151,7 +151,7 @@ class KDTree:
                         n_found -= 1
             else:
                 node = self.nodes[node_id]
-                furthest_so_far = -found.front.priority if not found.empty() else float("inf")
+                furthest_so_far = -found.front.priority if n_found >= k else float("inf")
                 dist_left = self.nodes[node.left].bb.distance(pt)
                 dist_right = self.nodes[node.right].bb.distance(pt)                
                 for dist,child in sorted([(dist_left, node.left), (dist_right,node.right)]):
